@@ -274,6 +274,71 @@ def search(ctx, deep):
                 if us == 'usable':
                     # a refused fit on a fresh object must not leave a usable model behind
                     bad('refused-but-usable', {'theta': rtheta}, 'refused fit leaves no usable model')
+    # construction routes and data forms: the outcome of fit is a function of the VALUES of the data, whatever route
+    # built the object (constructor, factory by name / upper-case name / enum, from_dict of an unfitted model) and
+    # whatever dtype / layout carries the values; out-of-range values are refused in every dtype
+    from copulas.bivariate import Bivariate, CopulaTypes
+    fixed = [('tau0', np.array([[0.1, 0.2], [0.2, 0.4], [0.3, 0.1], [0.4, 0.3]])),
+             ('pos', np.column_stack((np.linspace(0.05, 0.95, 19), np.linspace(0.05, 0.95, 19)[[1, 0, 2, 4, 3, 5, 6, 8, 7, 9, 10, 12, 11, 13, 14, 16, 15, 17, 18]]))),
+             ('neg', np.column_stack((np.linspace(0.05, 0.95, 15), 1 - np.linspace(0.05, 0.95, 15)[[1, 0, 2, 4, 3, 5, 6, 8, 7, 9, 10, 12, 11, 13, 14]])))]
+    for fam in B.FAMS:
+        enum = {'clayton': CopulaTypes.CLAYTON, 'frank': CopulaTypes.FRANK, 'gumbel': CopulaTypes.GUMBEL}[fam]
+        makers = {'factory-name': lambda: Bivariate(copula_type=fam), 'factory-upper': lambda: Bivariate(copula_type=fam.upper()),
+                  'factory-enum': lambda: Bivariate(copula_type=enum),
+                  'from_dict-unfitted': lambda: Bivariate.from_dict(B.cls_of(fam)().to_dict())}
+        for dname, X in fixed:
+            ref = real_fit(fam, X)[:4]
+            for rname, mk in makers.items():
+                checked += 1
+                try:
+                    obj = mk()
+                except Exception as e:  # noqa
+                    ctx.count(f'route:{rname}:unavailable({vc.exc_kind(e)})')
+                    continue
+                try:
+                    with np.errstate(all='ignore'):
+                        obj.fit(X)
+                    res = 'ok'
+                except Exception as e:  # noqa
+                    res = 'err ' + vc.exc_kind(e)
+                try:
+                    obj.check_fit()
+                    us = 'usable'
+                except Exception as e:  # noqa
+                    us = 'unusable:' + vc.exc_kind(e)
+                got = (res, obj.tau, obj.theta, us)
+                same = got[0] == ref[0] and got[3] == ref[3] and (got[0] != 'ok' or (got[1] == ref[1] and got[2] == ref[2]))
+                if not same:
+                    found += 1
+                    ctx.fail_input(f'{fam}.fit', {'route': rname, 'data': dname, 'X': X.tolist()},
+                                   {'this_route': [str(x) for x in got], 'constructor': [str(x) for x in ref]},
+                                   'fit decides and calibrates the same way whatever route built the object',
+                                   f'{fam}.fit:depends-on-construction-route')
+                    break
+        # data forms
+        base = fixed[1][1]
+        refb = real_fit(fam, base)[:4]
+        forms = {'fortran': np.asfortranarray(base), 'object-dtype': base.astype(object), 'strided': np.repeat(base, 2, axis=0)[::2],
+                 'readonly': base.copy()}
+        forms['readonly'].setflags(write=False)
+        for fname, Xf in forms.items():
+            checked += 1
+            got = real_fit(fam, Xf)[:4]
+            if not (got[0] == refb[0] and got[3] == refb[3] and (got[0] != 'ok' or (float(got[1]) == float(refb[1]) and float(got[2]) == float(refb[2])))):
+                found += 1
+                ctx.fail_input(f'{fam}.fit', {'data_form': fname, 'X': base.tolist()},
+                               {'this_form': [str(x) for x in got], 'float64_C_order': [str(x) for x in refb]},
+                               'fit is a function of the values of the data', f'{fam}.fit:depends-on-data-form')
+        bad_forms = {'int-0-1-2': np.array([[0, 1], [1, 2], [2, 0], [1, 1], [0, 2]]), 'int-ranks': np.column_stack((np.arange(1, 9), np.arange(1, 9)[::-1])),
+                     'int-negative': np.array([[0, 1], [1, 0], [-1, 1], [0, 0]]), 'object-out-of-range': np.array([[0.2, 0.4], [0.5, 1.5], [0.7, 0.1]], dtype=object),
+                     'float32-out-of-range': np.array([[0.2, 0.4], [0.5, 1.5], [0.7, 0.1]], dtype=np.float32)}
+        for fname, Xf in bad_forms.items():
+            checked += 1
+            got = real_fit(fam, Xf)
+            if got[0] != 'err ValueError':
+                found += 1
+                ctx.fail_input(f'{fam}.fit', {'data_form': fname, 'X': Xf.tolist()}, got[0],
+                               'a value outside [0,1] is refused with ValueError in every dtype', f'{fam}.fit:invalid-data-not-refused')
     # history with refusals: a refused fit must not influence a later fit on the same object
     refusing = [X for kind, X in arrays if kind in ('gauss', 'ties', 'anti', 'tau0', 'tiny') and len(X) >= 2][:10]
     for fam in B.FAMS:
